@@ -130,6 +130,10 @@ type DCase struct {
 	// DupSpawn: between the two phases somebody spawns an actor under the target's kind and id again.
 	// That must change nothing (C10); what matters here is that the target keeps receiving (C01).
 	DupSpawn bool `json:"dup_spawn,omitempty"`
+	// Neighbour: between the two phases another actor of the target's kind is spawned and stopped
+	// again.  Its id relates to the target's ("10") as a prefix ("1"), an extension ("100"), a path
+	// below it ("10/0") or not at all ("2"); the life of one actor is nothing to the deliveries of another.
+	Neighbour string `json:"neighbour,omitempty"`
 }
 
 type dmsg struct{ G, Seq int }
@@ -183,7 +187,7 @@ func runDelivery(c DCase) (map[string]int, error) {
 			foreign = append(foreign, fmt.Sprintf("%T", m))
 			mu.Unlock()
 		}
-	}, "target", actor.WithInboxSize(c.Inbox), actor.WithID("0"))
+	}, "target", actor.WithInboxSize(c.Inbox), actor.WithID("10"))
 
 	senderPID := func(g int) *actor.PID {
 		if g == 0 {
@@ -252,13 +256,23 @@ func runDelivery(c DCase) (map[string]int, error) {
 	close(gate1)
 	if c.DupSpawn {
 		ran := make(chan struct{}, 1)
-		e.Spawn(func() actor.Receiver { ran <- struct{}{}; return recv(func(*actor.Context) {}) }, "target", actor.WithID("0"), actor.WithInboxSize(c.Inbox))
+		e.Spawn(func() actor.Receiver { ran <- struct{}{}; return recv(func(*actor.Context) {}) }, "target", actor.WithID("10"), actor.WithInboxSize(c.Inbox))
 		select {
 		case <-ran:
 			return nil, fmt.Errorf("a second Spawn under the id of the live target ran its Producer")
 		default:
 		}
 		feat["duplicate-spawn-over-the-live-target"]++
+	}
+	if c.Neighbour != "" {
+		if c.Neighbour == "10" || len(c.Neighbour) > 8 {
+			return nil, nil
+		}
+		nb := e.SpawnFunc(func(*actor.Context) {}, "target", actor.WithID(c.Neighbour))
+		if err := waitCh(e.Poison(nb).Done(), "poison of the neighbour not done"); err != nil {
+			return nil, err
+		}
+		feat["neighbour-with-a-related-id-came-and-went"]++
 	}
 	if err := phase(func(g int) int { return c.PhaseA[g] }, func(g int) int { return c.PhaseA[g] + c.PhaseB[g] }); err != nil {
 		return nil, err
@@ -369,6 +383,7 @@ func genDelivery(t *rapid.T) DCase {
 		c.Actor = append(c.Actor, rapid.IntRange(0, 3).Draw(t, "actor") == 0)
 	}
 	c.DupSpawn = rapid.IntRange(0, 3).Draw(t, "dupspawn") == 0
+	c.Neighbour = rapid.SampledFrom([]string{"", "", "", "1", "1", "100", "10/0", "2"}).Draw(t, "neighbour")
 	c.Gate1 = rapid.IntRange(0, 6).Draw(t, "gate1")
 	c.Gate2 = rapid.IntRange(0, 6).Draw(t, "gate2")
 	return c
@@ -477,11 +492,16 @@ type recv func(*actor.Context)
 
 func (r recv) Receive(c *actor.Context) { r(c) }
 
+// subIDs: the ids of the population are strings that relate to each other the way real ids do:
+// one is a prefix of another ("1", "10", "1x"), one looks like a path below another ("1/0").
+var subIDs = []string{"1", "10", "2", "1x", "1/0"}
+
 func idOf(id int, child bool) (kind, sub, full string) {
+	sub = subIDs[id%len(subIDs)]
 	if child {
-		return "par/0/kid", fmt.Sprint(id), fmt.Sprintf("par/0/kid/%d", id)
+		return "par/0/kid", sub, "par/0/kid/" + sub
 	}
-	return "a", fmt.Sprint(id), fmt.Sprintf("a/%d", id)
+	return "a", sub, "a/" + sub
 }
 
 // spawn one actor under the given id, top level or as a child of the parent actor.
@@ -527,7 +547,7 @@ func runSpawns(c SCase) (map[string]int, error) {
 	}
 	nbar := 0
 	for oi, op := range c.Ops {
-		if op.ID < 0 || op.ID > 3 || op.ID2 < 0 || op.ID2 > 3 {
+		if op.ID < 0 || op.ID >= len(subIDs) || op.ID2 < 0 || op.ID2 >= len(subIDs) {
 			return nil, nil
 		}
 		kind, sub, full := idOf(op.ID, op.Child)
@@ -962,13 +982,13 @@ func genSpawns(t *rapid.T) SCase {
 	for i := 0; i < n; i++ {
 		op := SOp{K: rapid.SampledFrom([]string{"spawn", "spawn", "spawn", "burst", "burst", "stop", "poison", "dupover", "stillborn", "slowstop", "slowkid"}).Draw(t, "k")}
 
-		op.ID = rapid.IntRange(0, 2).Draw(t, "id")
+		op.ID = rapid.IntRange(0, len(subIDs)-1).Draw(t, "id")
 		op.Child = rapid.IntRange(0, 2).Draw(t, "child") == 0
 		switch op.K {
 		case "burst":
 			op.G = rapid.IntRange(1, 8).Draw(t, "g")
 			op.G2 = rapid.IntRange(0, 4).Draw(t, "g2")
-			op.ID2 = rapid.IntRange(0, 2).Draw(t, "id2")
+			op.ID2 = rapid.IntRange(0, len(subIDs)-1).Draw(t, "id2")
 		case "dupover":
 			op.G = rapid.IntRange(1, 6).Draw(t, "g")
 			op.Backlog = rapid.IntRange(1, 20).Draw(t, "backlog")
